@@ -29,7 +29,7 @@ from __future__ import annotations
 import ast
 from pathlib import Path
 
-from gen.c09_pywalk import Env, Untranslatable, Walker, coq_str, find_method
+from gen.c09_pywalk import Env, Untranslatable, Walker, canonicalize, coq_str, find_method
 
 DOC = "self.document"
 
@@ -251,9 +251,46 @@ class AnchorWalker(Walker):
         return self.loop_state_hook(s, env)
 
 
+def canon_rule(kind, src, arity):
+    """the canonical names of the locals of ResolveAnchorIds.apply, by what they are assigned from"""
+    if kind == "assign":
+        if src == "getattr(self.document, 'myst_slugs', {})":
+            return ("slugs",)
+        if src == "{}":
+            return ("explicit",)
+        if src.startswith("self.document.nameids["):
+            return ("labelid",)
+        if src.startswith("self.document.ids[") or src.startswith("self.document.ids.get(") or src == "node[0]":
+            return ("node",)
+        if src == "node['names'][0]":
+            return ("labelid",)
+        if src == "None" or src.startswith("clean_astext("):
+            return ("implicit_title",)
+        if src == "refnode['refuri'][1:]":
+            return ("target",)
+        if src == "explicit[target]" and arity == 2:
+            return ("ref_id", "implicit_title")
+        if src == "slugs[target]" and arity == 3:
+            return ("_", "sect_id", "implicit_title")
+        if src.startswith("addnodes.pending_xref("):
+            return ("pending",)
+        if src.startswith("nodes.inline('', '', "):
+            return ("inner_node",)
+    if kind == "for":
+        if src == "self.document.nametypes.items()" and arity == 2:
+            return ("name", "is_explicit")
+        if src == "node":
+            return ("subnode",)
+        if src == "findall(self.document)(nodes.reference)":
+            return ("refnode",)
+        if src == "('ids', 'names', 'dupnames')":
+            return ("attr",)
+    return None
+
+
 def generate(repo: Path) -> str:
     tree = ast.parse((repo / "myst_parser/mdit_to_docutils/transforms.py").read_text())
-    fn = find_method(tree, "ResolveAnchorIds", "apply")
+    fn = canonicalize(find_method(tree, "ResolveAnchorIds", "apply"), canon_rule)
     if [a.arg for a in fn.args.args] != ["self"] or fn.args.kwarg is None:
         raise Untranslatable("apply signature")
     m = AnchorMap()
